@@ -29,6 +29,23 @@ func main() {
 		os.Exit(mutantCmd(os.Args[2:]))
 	case "explore":
 		explore(os.Args[2:])
+	case "fns":
+		// development aid: every repository function with its file and size
+		p, err := an.Load("/repo", an.BuildConfig{}, nil)
+		if err != nil {
+			fmt.Println(err)
+			os.Exit(2)
+		}
+		for _, fn := range p.AllFns {
+			if fn.Blocks == nil || p.IsTestFile(fn.Pos()) {
+				continue
+			}
+			n := 0
+			for _, b := range fn.Blocks {
+				n += len(b.Instrs)
+			}
+			fmt.Printf("%s\t%s\t%d\n", an.FnKey(fn), p.Pos(fn.Pos()), n)
+		}
 	case "list":
 		if len(os.Args) > 2 && os.Args[2] == "-json" {
 			out := map[string]any{}
